@@ -99,6 +99,12 @@ def main():
                                 max_po2_exponent=bounds[1], post_training_scale=pts)
       return Q.quantized_linear(bits, integer, keep_negative=bool(kn), alpha=ak, scale_axis=sa_arg)
 
+    # module-level state: under image_data_format 'channels_first' the default scale of quantized_bits is per FIRST axis
+    cfirst = cls == "bits" and not sa_spec and rank >= 2 and ak in ("auto", "auto_po2") and not k and rnd.random() < 0.3
+    if cfirst:
+      tf.keras.backend.set_image_data_format("channels_first")
+      meta["sa"] = [0]
+      meta["df"] = "channels_first"
     try:
       q = make()
       y = call(q, x)
@@ -128,6 +134,8 @@ def main():
     except Exception as e:
       errors.append({"k": "exc", "meta": meta, "exc": repr(e)[:300]})
       continue
+    finally:
+      tf.keras.backend.set_image_data_format("channels_last")
     if not all(np.all(np.isfinite(v)) for v in (y, s, qs, y2, s2)):
       errors.append({"k": "nonfinite", "meta": meta, "x": [float(v) for v in x.reshape(-1)]})
       continue
